@@ -28,7 +28,7 @@ def prepare(backends):
 
 
 def plan(env, tier, seed):
-    na, ns = (5, 14) if tier == "quick" else (24, 90)
+    na, ns = (6, 20) if tier == "quick" else (60, 240)
     tasks = cl.split_tasks(env, lambda ty, e: True)
     for t in tasks:
         t.update({"na": na, "ns": ns, "seed": seed, "kind": "qty"})
